@@ -1,5 +1,6 @@
 import DrummerVerif.Lemmas.C01
 import DrummerVerif.Lemmas.C01X
+import DrummerVerif.Lemmas.C01N
 import DrummerVerif.Lemmas.Stamp
 import DrummerVerif.Lemmas.C02Events
 /-!
@@ -125,6 +126,19 @@ theorem replica_that_applied_its_removal_stops :
             Loop.host? (Loop.settle l a) a = some h' →
               ∀ (r : SimReplica), r ∈ h'.running → Loop.appliedOwnRemoval l r = false :=
   @_root_.Drummer.settle_spec
+
+theorem never_silent_on_a_shard_that_needs_work :
+    ∀ (cx : Ctx) (draws rest : List Nat) (rs : List Request),
+      maintain cx draws = SRes.ok rs rest →
+        ∀ (cr : ShardRepair),
+          cr ∈ cx.repairs →
+            (∀ (cr' : ShardRepair), cr' ∈ cx.repairs → cr'.shard.shardId = cr.shard.shardId → cr' = cr) →
+              ∀ (d : ShardDef),
+                Ctx.def? cx cr.shard.shardId = some d →
+                  cr.failed ≠ [] ∨ cr.toStart ≠ [] →
+                    (∀ (n : Replica), n ∈ cr.failed → n ∈ restorable cx cr) →
+                      ∃ r, r ∈ rs ∧ r.shardId = cr.shard.shardId ∧ r.type = ReqType.create :=
+  @_root_.Drummer.maintain_not_silent
 
 end C01
 end Drummer
